@@ -993,13 +993,16 @@ def src_build(scn: Dict[str, Any], ck: Clock, form: str, profile: str, salt: int
 
 
 def src_run(scn: Dict[str, Any], *, kind: str, form: str, profile: str = "plain", salt: int = 0, as_td: bool = False,
-            fsched: bool = False) -> Dict[str, Any]:
+            fsched: bool = False, starts: Tuple[int, ...] = (0,), stop_first: Optional[int] = None) -> Dict[str, Any]:
+    """`starts`: subscription instants (ticks) of the subscribers of the SAME observable object; every subscriber is
+    disposed half a tick after its own horizon, the first one half a tick after instant `stop_first` if given.
+    `recs[i]` holds subscriber i's notifications with instants relative to its own subscription."""
     from reactivex import operators as ops
     from reactivex.scheduler import VirtualTimeScheduler
     ck = Clock(kind)
     s = ck.s
-    rec: List[Tuple[Any, str, Any]] = []
-    holder: Dict[str, Any] = {}
+    recs: List[List[Tuple[Any, str, Any]]] = [[] for _ in starts]
+    holder: Dict[int, Any] = {}
     escaped = None
     info: Dict[str, Any] = {"vals": None, "throw": None, "throw_str": None}
     try:
@@ -1007,20 +1010,30 @@ def src_run(scn: Dict[str, Any], *, kind: str, form: str, profile: str = "plain"
         if scn["cut"]:
             ys = ys.pipe(ops.take(scn["cut"]))
 
-        def go(_s=None, _st=None):
-            kw = {} if fsched and scn["fac"] in FSCHED_FACS else {"scheduler": s}
-            holder["d"] = ys.subscribe(on_next=lambda v: rec.append((ck.tick_now(), "N", v)),
-                                       on_error=lambda e: rec.append((ck.tick_now(), "E", e)),
-                                       on_completed=lambda: rec.append((ck.tick_now(), "C", None)), **kw)
-        s.schedule_absolute(ck.abs(T0), go)
-        s.schedule_absolute(ck.abs(T0 + scn["hz"] * TICK + HALF), lambda *_: holder["d"].dispose())
+        def subscriber(i, st):
+            rec = recs[i]
+
+            def now():
+                t = ck.tick_now() - st
+                return int(t) if t == int(t) else t
+
+            def go(_s=None, _st=None):
+                kw = {} if fsched and scn["fac"] in FSCHED_FACS else {"scheduler": s}
+                holder[i] = ys.subscribe(on_next=lambda v: rec.append((now(), "N", v)),
+                                         on_error=lambda e: rec.append((now(), "E", e)),
+                                         on_completed=lambda: rec.append((now(), "C", None)), **kw)
+            return go
+        for i, st in enumerate(starts):
+            s.schedule_absolute(ck.abs(T0 + st * TICK), subscriber(i, st))
+            end = st + scn["hz"] if not (i == 0 and stop_first is not None) else stop_first
+            s.schedule_absolute(ck.abs(T0 + end * TICK + HALF), (lambda i: lambda *_: holder[i].dispose())(i))
         with watchdog():
             VirtualTimeScheduler.start(s)
     except Hang:
         escaped = "hang"
     except Exception as e:
         escaped = e
-    return {"rec": rec, "info": info, "escaped": escaped}
+    return {"rec": recs[0], "recs": recs, "info": info, "escaped": escaped}
 
 
 def src_compare(scn: Dict[str, Any], exp: Dict[str, Any], got: Dict[str, Any]) -> Optional[str]:
@@ -1098,6 +1111,55 @@ def src_judge(scn, allowed, *, kind, form, profile="plain", salt=0, as_td=False,
             "zero_delay_prefix": scn["fac"] == "generate_rel" and _zero_gap_prefix(allowed[0]["out"], got["rec"])}
 
 
+# ---- several subscribers of the same factory object ----------------------------------------------------------
+MULTI_PATTERNS = ("overlap1", "overlap2", "redo")
+ONE_SHOT_FORMS = {"gen"}        # a generator object handed to from_iterable is legitimately consumed once
+ABSOLUTE_FORMS = {"abs"}        # an absolute due time is not relative to the subscription
+
+
+def multi_applies(scn, form: str) -> bool:
+    return form not in ONE_SHOT_FORMS and form not in ABSOLUTE_FORMS
+
+
+def src_judge_multi(scn, allowed, pattern: str, *, kind, form, profile="plain", salt=0, as_td=False, fsched=False):
+    """A second subscriber on the SAME observable object - overlapping the first (1 or 2 ticks later, while the
+    first has a value pending) or subscribing one tick after the first was disposed mid-stream (half a tick after
+    its first element) - must observe the factory's specified sequence relative to ITS OWN subscription instant;
+    the first subscriber must be undisturbed (its expectation is cut at its dispose instant)."""
+    exp0 = allowed[0]["out"]
+    stop_first = None
+    if pattern == "redo":
+        firsts = [e["at"] for e in exp0 if e["k"] == "N"]
+        stop_first = firsts[0] if firsts else 0
+        starts = (0, stop_first + 1)
+    else:
+        starts = (0, 1 if pattern == "overlap1" else 2)
+    got = _confirmed(lambda: src_run(scn, kind=kind, form=form, profile=profile, salt=salt, as_td=as_td, fsched=fsched,
+                                     starts=starts, stop_first=stop_first))
+    reason, which = None, None
+    for i in range(len(starts)):
+        rs = []
+        for exp in allowed:
+            e2 = exp
+            if i == 0 and stop_first is not None:
+                e2 = dict(exp, out=[e for e in exp["out"] if e["at"] <= stop_first])
+            rs.append(src_compare(scn, e2, {"rec": got["recs"][i], "info": got["info"], "escaped": got["escaped"]}))
+        if all(rs):
+            reason, which = rs[0], i + 1
+            break
+    if reason is None:
+        return None
+    esc = got["escaped"]
+    return {"engine": "src-multi", "fac": scn["fac"], "form": form, "kind": kind, "profile": profile, "salt": salt, "as_td": as_td,
+            "fsched": fsched, "pattern": pattern, "starts": list(starts), "stop_first": stop_first, "failing_subscriber": which,
+            "scn": scn, "expected": allowed,
+            "observed": {"recs": [[(t, k, repr(v)) for t, k, v in r] for r in got["recs"]],
+                         "escaped": (esc if isinstance(esc, str) else repr(esc)) if esc is not None else None},
+            "reason": reason, "reason_kind": reason.split(":")[0],
+            "escaped_type": type(esc).__name__ if esc is not None and not isinstance(esc, str) else None,
+            "has_fault": src_has_fault(scn), "zero_delay_prefix": False}
+
+
 def src_variants(scn, rich: bool):
     fac = scn["fac"]
     h = sum(map(ord, json.dumps(scn, sort_keys=True)))
@@ -1110,10 +1172,17 @@ def src_variants(scn, rich: bool):
                  [("test", False), ("hist", False), ("vts", False)]
     for i, form in enumerate(forms):
         for c, (kind, as_td) in enumerate(combos):
-            if form == "abs" and kind == "vts" and False:
-                continue
             out.append(dict(kind=kind, form=form, as_td=as_td, profile=("plain", "falsy", "ints")[(h + i + c) % 3],
                             salt=(h + c) % 8, fsched=bool((h + i + c) % 2) and fac in FSCHED_FACS))
+    # a second subscriber on the same object: all three patterns for the timed factories, one (rotating) for the others
+    mforms = [f for f in forms if multi_applies(scn, f)]
+    if mforms:
+        pats = MULTI_PATTERNS if timed else (MULTI_PATTERNS[h % 3],)
+        for i, pat in enumerate(pats):
+            kind, as_td = combos[(h + i) % len(combos)]
+            out.append(dict(multi=pat, kind=kind, form=mforms[(h + i) % len(mforms)], as_td=as_td,
+                            profile=("plain", "falsy", "ints")[(h + i) % 3], salt=(h + i) % 8,
+                            fsched=bool((h + i) % 2) and fac in FSCHED_FACS))
     return out
 
 
@@ -1121,7 +1190,11 @@ def _src_job(args):
     scn, allowed, variants = args
     fails = []
     for v in variants:
-        f = src_judge(scn, allowed, **v)
+        if "multi" in v:
+            v = dict(v)
+            f = src_judge_multi(scn, allowed, v.pop("multi"), **v)
+        else:
+            f = src_judge(scn, allowed, **v)
         if f:
             fails.append(f)
     return len(variants), fails
@@ -1155,6 +1228,11 @@ def src_export(ck, runs, timeout=900):
 
 
 def src_generic_replay(rec):
+    if rec.get("engine") == "src-multi":
+        f = src_judge_multi(rec["scn"], rec["expected"], rec["pattern"], kind=rec["kind"], form=rec["form"], profile=rec["profile"],
+                            salt=rec["salt"], as_td=rec["as_td"], fsched=rec["fsched"])
+        print(json.dumps(f, default=str)[:3000] if f else "replay: observation allowed by the spec")
+        return 1 if f else 0
     f = src_judge(rec["scn"], rec["expected"], kind=rec["kind"], form=rec["form"], profile=rec["profile"], salt=rec["salt"],
                   as_td=rec["as_td"], fsched=rec["fsched"])
     print(json.dumps(f, default=str)[:3000] if f else "replay: observation allowed by the spec")
